@@ -277,9 +277,49 @@ def run_idx(c):
     return ck.result()
 
 
+# ------------------------------------------------------------------------------------------- elements of very different magnitude
+@st.composite
+def mag_case(draw, tier="quick"):
+    k = draw(st.integers(2, 4))
+    return {"pairs": [[draw(C.ivec(3, 5)), draw(C.ivec(3, 5))] for _ in range(k)], "exp": [draw(st.sampled_from([0, 0, 4, 3])) for _ in range(k)]}
+
+
+def run_mag(c):
+    """collections of line pairs (degenerate conics) whose matrices differ by factors up to 1e4: components / is_degenerate per
+    position must equal the single-object answers (the decomposition is scale free for every single matrix)"""
+    from fractions import Fraction
+
+    from .. import exact as X
+
+    mats, singles = [], []
+    for (g, h), e in zip(c["pairs"], c["exp"]):
+        if X.rank([[Fraction(x) for x in g], [Fraction(x) for x in h]]) < 2:
+            raise Skip("proportional")
+        m = (np.outer(g, h) + np.outer(h, g)).astype(float) * 10.0**e
+        mats.append(m)
+        singles.append(G.Conic(m))
+    ck = Checker()
+    coll = QuadricCollection(np.stack(mats))
+    comp, f = call("components:mixed-magnitude", lambda: coll.components)
+    if f:
+        return [f]
+    for i, q in enumerate(singles):
+        want, f = call("components:single", lambda: q.components)
+        if f:
+            raise Skip("single call fails")
+        got = [np.asarray(x.array)[i] for x in comp]
+        ok = C.multiset_peq(got, [np.asarray(x.array) for x in want], 1e-6)
+        gen = C.multiset_peq(got, [np.array(c["pairs"][i][0], float), np.array(c["pairs"][i][1], float)], 1e-6)
+        if not ck.check(ok and gen, "components:mixed-magnitude:position-value", (i, c["exp"], [g.tolist() for g in got])):
+            break
+    return ck.result()
+
+
 LAWS = [
     Law("collection_vs_single", lambda tier: case(tier), run, nontrivial, labels, {"quick": 3500, "thorough": 80000},
         "collection result at every position == single-object result there, with broadcasting", shard=250, mandatory=("one-axis", "several-axes", "one-axis+broadcast")),
+    Law("components_mixed_magnitude", lambda tier: mag_case(tier), run_mag, lambda c: len(set(c["exp"])) > 1, lambda c: ["mixed" if len(set(c["exp"])) > 1 else "uniform"],
+        {"quick": 500, "thorough": 8000}, "QuadricCollection.components for line pairs whose matrices differ in magnitude by up to 1e4 vs the single-object results", shard=250),
     Law("indexing", lambda tier: idx_case(tier), run_idx, lambda c: True, lambda c: [f"{c['kind']}{c['d']}", c["how"], "2-axes" if len(c["shape"]) > 1 else "1-axis"],
         {"quick": 1500, "thorough": 25000}, "coll[i], coll[i,j], iteration yield instances of the element class with attributes intact", shard=300),
 ]
